@@ -143,7 +143,8 @@ CHECKS = {
         "technique": "property-based testing (rapid) of generated waiter/signal scripts in testing/synctest bubbles; counting oracle after quiescence",
         "rule": ("plans: k in 1..5 waiters each parked or held in the unlock-to-park window, 0-8 steps. non-trivial = k >= 2 and a Signal or Broadcast is issued while some waiter is in the window; distinct = distinct plan JSON; every plan is executed R times (quick 3, thorough 10)"),
         "assumptions": ["testing/synctest durable-block detection", "the gated Locker identifies the unlocking waiter because Lock is exclusive", "rapid v1.3.0; go1.26.8"],
-        "jobs": [{"pkg": "c16cond", "kinds": ["cond"], "scale_thorough": 10, "shards_thorough": 16, "replay_reps": 50}],
+        "jobs": [{"pkg": "c16cond", "kinds": ["cond"], "scale_thorough": 10, "shards_thorough": 16, "replay_reps": 50},
+                 {"pkg": "c16cond", "race": True, "kinds": ["cond"], "scale_quick": 0.15, "scale_thorough": 2, "shards_thorough": 4, "replay_reps": 20}],
     },
     "C11": {
         "level": "exploration",
@@ -155,7 +156,8 @@ CHECKS = {
         "rule": ("plans: 0-30 items with gaps from {0, maxWait/3, maxWait, 3*maxWait}, 0-25 consumer steps then close or drain. non-trivial = an underfilled batch was handed out by timer, or Close was issued while the producer held "
                  "undelivered items, or a waiter followed a cancelled waiter; distinct = distinct plan JSON; each plan runs R times"),
         "assumptions": ["testing/synctest fake clock", "sk.RecStream timestamps", "rapid v1.3.0; go1.26.8"],
-        "jobs": [{"pkg": "c11batch", "kinds": ["batch"], "scale_thorough": 10, "shards_thorough": 16, "replay_reps": 30}],
+        "jobs": [{"pkg": "c11batch", "kinds": ["batch"], "scale_thorough": 10, "shards_thorough": 16, "replay_reps": 30},
+                 {"pkg": "c11batch", "race": True, "kinds": ["batch"], "scale_quick": 0.1, "scale_thorough": 2, "shards_thorough": 4, "replay_reps": 20}],
     },
     "C10": {
         "level": "exploration",
@@ -166,7 +168,8 @@ CHECKS = {
         "technique": "property-based testing (rapid) of generated actor scripts in testing/synctest bubbles; history-invariant oracle",
         "rule": ("plans: buffer in {0,1,2,5}, 1-3 senders, 1-24 steps + drain epilogue; non-trivial = Close called while accepted values were still buffered (buffer >= 1), or Sends of two sender actors overlapped, or a Send was blocked when the receiver closed; distinct = distinct plan JSON; R=5/20 executions each"),
         "assumptions": ["testing/synctest durable-block detection", "logical stamps taken by the actors bracket the library calls", "rapid v1.3.0; go1.26.8"],
-        "jobs": [{"pkg": "c10pipe", "kinds": ["pipe"], "scale_thorough": 8, "shards_thorough": 16, "replay_reps": 200}],
+        "jobs": [{"pkg": "c10pipe", "kinds": ["pipe"], "scale_thorough": 8, "shards_thorough": 16, "replay_reps": 200},
+                 {"pkg": "c10pipe", "race": True, "kinds": ["pipe"], "scale_quick": 0.15, "scale_thorough": 2, "shards_thorough": 4, "replay_reps": 20}],
     },
     "C12": {
         "level": "exploration",
@@ -177,7 +180,8 @@ CHECKS = {
         "technique": "property-based testing (rapid) of generated producer/consumer scripts in testing/synctest bubbles; multiset/order/termination oracle",
         "rule": ("kinds chans-merge, replicate, stream-merge. non-trivial = >= 2 non-empty inputs of different lengths (one closes while another still has values), or arity in {0,1}, or an early Close (stream.Merge); replicate: >= 2 destinations and >= 2 values, or zero destinations; distinct = distinct plan JSON; R=3/10"),
         "assumptions": ["testing/synctest durable-block detection", "rapid v1.3.0; go1.26.8"],
-        "jobs": [{"pkg": "c12merge", "kinds": ["chans-merge", "chans-merge-iface", "replicate", "stream-merge"], "scale_thorough": 10, "shards_thorough": 16, "replay_reps": 30}],
+        "jobs": [{"pkg": "c12merge", "kinds": ["chans-merge", "chans-merge-iface", "replicate", "stream-merge"], "scale_thorough": 10, "shards_thorough": 16, "replay_reps": 30},
+                 {"pkg": "c12merge", "race": True, "kinds": ["chans-merge", "chans-merge-iface", "replicate", "stream-merge"], "scale_quick": 0.15, "scale_thorough": 2, "shards_thorough": 4, "replay_reps": 20}],
     },
     "C13": {
         "level": "exploration",
@@ -200,7 +204,8 @@ CHECKS = {
         "technique": "property-based testing (rapid) in testing/synctest bubbles; order/gauge/error-provenance oracle",
         "rule": ("kinds map-iterator, map-stream. non-trivial = completion order differed from source order AND the gauge reached its bound (back-pressure engaged), or a failure surfaced with results still in flight; distinct = distinct plan JSON; R=3/10"),
         "assumptions": ["testing/synctest", "rapid v1.3.0; go1.26.8"],
-        "jobs": [{"pkg": "c14mapit", "kinds": ["map-iterator", "map-stream"], "scale_thorough": 8, "shards_thorough": 16, "replay_reps": 30}],
+        "jobs": [{"pkg": "c14mapit", "kinds": ["map-iterator", "map-stream"], "scale_thorough": 8, "shards_thorough": 16, "replay_reps": 30},
+                 {"pkg": "c14mapit", "race": True, "kinds": ["map-iterator", "map-stream"], "scale_quick": 0.1, "scale_thorough": 2, "shards_thorough": 4, "replay_reps": 20}],
     },
     "C18": {
         "level": "exploration",
@@ -212,7 +217,7 @@ CHECKS = {
         "rule": ("kinds map, watchable-seq, watchable-conc, future, lazy. non-trivial: map = a load-type op hit an absent key and (for interface V) a present key holding a nil interface; watchable-seq = Value before the first Set and Set-Set-Value; "
                  "watchable-conc = an observer saw the zero value before a Set or several Sets between two of its Values; future = a waiter present at Fill, >= 2 waiters; lazy = >= 2 racing callers; distinct = distinct plan JSON"),
         "assumptions": ["sync.Map as reference", "testing/synctest", "rapid v1.3.0; go1.26.8"],
-        "jobs": [{"pkg": "c18sync", "run": "TestMap|TestWatchable|TestFuture$|TestLazy", "kinds": ["map", "watchable-seq", "watchable-conc", "future", "lazy"], "scale_thorough": 10, "shards_thorough": 16, "replay_reps": 20},
+        "jobs": [{"pkg": "c18sync", "run": "TestMap|TestWatchable|TestFuture$|TestLazy", "kinds": ["map", "watchable-seq", "watchable-conc", "watchable-first-set", "future", "lazy"], "scale_thorough": 10, "shards_thorough": 16, "replay_reps": 20},
                  {"pkg": "c18sync", "run": "TestFutureRace|TestLazy|TestWatchableSequential", "race": True, "kinds": ["future-race"], "scale_thorough": 5, "shards_thorough": 4, "replay_reps": 20}],
     },
     "C17": {
@@ -224,7 +229,8 @@ CHECKS = {
         "technique": "property-based testing (rapid) of generated timelines in testing/synctest bubbles; run-log invariants",
         "rule": ("plans: 1-5 registrations, 0-12 trigger events, one stop; non-trivial = a trigger call landed while its function was running, or a registration raced with the stop; distinct = distinct plan JSON; R=3/10"),
         "assumptions": ["testing/synctest", "rapid v1.3.0; go1.26.8"],
-        "jobs": [{"pkg": "c17group", "kinds": ["group"], "scale_thorough": 10, "shards_thorough": 16, "replay_reps": 30}],
+        "jobs": [{"pkg": "c17group", "kinds": ["group", "stop-storm"], "scale_thorough": 10, "shards_thorough": 16, "replay_reps": 30},
+                 {"pkg": "c17group", "race": True, "kinds": ["group", "stop-storm"], "scale_quick": 0.15, "scale_thorough": 2, "shards_thorough": 4, "replay_reps": 20}],
     },
     "C19": {
         "level": "exploration",
